@@ -41,6 +41,14 @@ def tasks(pid: str, tier: str, seed: int, families=None) -> List[Any]:
         whiches = [first, "stride"] if tier == "quick" else sorted({first, "first", "last", "stride"})
         for w in whiches:
             out.append(("mc.checks.modeb", "explore", dict(pid=pid, cfg_name=c.name, tier=tier, seed=seed, which=w)))
+        # MultiCVRP has a fixed step limit (2 x customers) and an idle action (every vehicle stays at / returns to the
+        # depot): the base schedules "idle for the first d steps, then the last masked-in action" for EVERY d up to the
+        # limit make the episode finish before, exactly at and after the limit (0 deviations each)
+        if c.family == "multi_cvrp" and c.modeb and (tier == "thorough" or pid in ("C08", "C11", "C03")):
+            n_cust = int(c.make()._num_customers) if hasattr(c.make(), "_num_customers") else 6
+            for d in range(1, 2 * n_cust + 2):
+                out.append(("mc.checks.modeb", "explore",
+                            dict(pid=pid, cfg_name=c.name, tier=tier, seed=seed, which=f"idle{d}")))
     return out
 
 
@@ -68,11 +76,17 @@ def explore(pid: str, cfg_name: str, tier: str, seed: int, which: str = "first")
     monitors = plan.pop("monitors")
     pre = plan.pop("pre", None)
     legal_only = "enabled_fn" in plan
-    order = range(len(A) - 1, -1, -1) if which == "last" else range(len(A))
+    idle = int(which[4:]) if which.startswith("idle") else 0
+    if idle:
+        dev_bound = 0
+    order = range(len(A) - 1, -1, -1) if (which == "last" or idle) else range(len(A))
 
     def policy(parents: Any, actions: np.ndarray) -> np.ndarray:
         out = np.zeros(len(parents), np.int64)
         for i in range(len(parents)):
+            if idle and holder["ex"].depth[int(parents.ids[i])] < idle:
+                out[i] = 0  # the first action of the alphabet: every vehicle to the depot
+                continue
             obs = t_index(parents.ts, i).observation
             if not (hasattr(obs, "action_mask") or refmon.has(ref, "mask")):
                 out[i] = 0 if which == "first" else len(actions) - 1
@@ -122,6 +136,8 @@ def explore(pid: str, cfg_name: str, tier: str, seed: int, which: str = "first")
     res["family"] = cfg.family
     res["kind"] = "modeB"
     res["deviation_bound"] = dev_bound
-    res["base_schedule"] = {"first": "first masked-in action", "last": "last masked-in action",
-                            "stride": "masked-in action of rank (7*depth+3) mod #legal"}[which]
+    res["base_schedule"] = (f"idle (all vehicles at the depot) for the first {idle} steps, then the last masked-in action"
+                            if idle else
+                            {"first": "first masked-in action", "last": "last masked-in action",
+                             "stride": "masked-in action of rank (7*depth+3) mod #legal"}[which])
     return res
